@@ -35,7 +35,7 @@ def cases(tier, seed):
     import itertools
     def add(body):
         cl = [(C('t', X), body)]
-        out.append({'id': '%s|%d' % (P.ctext(cl[0]), len(out)), 'fam': 'prog', 'clauses': PC.jsonable(tuple(cl)), 'query': PC.jsonable(C('t', X))})
+        out.append({'id': '%s|%d' % (P.ctext(cl[0]), len(out)), 'fam': 'prog', 'clauses': PC.jsonable(tuple(cl)), 'query': PC.jsonable(C('t', X)), 'concrete_data': True})
     for o in OUTG:
         for a in MENU:
             add(AND(a, o)); add(AND(o, a)); add(OR(AND(a, o), a)); add(OR(o, a))
@@ -44,6 +44,11 @@ def cases(tier, seed):
         for o2 in OUTG[:5]:
             add(AND(MENU[0], o, o2)); add(AND(o, MENU[2], o2))
             add(AND(OR(o, o2), OUTG[0], gb('fail'))); add(AND(OR(o, o2), gc('d', A('a')), o2))
+    # printing a body-local variable that first occurs at different places in the alternatives of a disjunction
+    for g1 in (U(Y, I(1)), gc('q', Y)):
+        for g3 in (U(Y, I(2)), gc('q', Y)):
+            for o in (gb('print', X, Y), gb('print', A('%s-%s '), Y, Z), gb('print_list', L(Y, X))):
+                add(AND(gc('p', X), OR(g1, AND(U(Z, I(9)), g3)), o)); add(AND(OR(AND(gc('p', Z), g3), g1), o))
     nf = 5 if tier == 'quick' else 7
     for n in range(0, nf + 1):
         for k in range(0, 4):
